@@ -543,3 +543,13 @@ def run(ctx):
     _run_before_r04_11(ctx)
     from . import replay_rules
     ctx.guard(replay_rules.r04_11)
+
+
+_run_before_r04_12 = run
+
+
+def run(ctx):
+    _run_before_r04_12(ctx)
+    # the law over all distinct intervals of seeded random histories (replay of the real tree)
+    from . import replay_rules
+    ctx.guard(replay_rules.r04_12)
